@@ -10,7 +10,9 @@
  marple.*                (E3, bounded, whole run, real data) the fast recursions return coefficients satisfying the same normal equations and
                          the same minimum per sample: arcovar_marple N<=5,p<=2; modcovar_marple N<=5,p<=1
  place.pcovar/pmodcovar  class level
- Exact recovery of noiseless exponentials: level_note.
+ recovery.*              (E3, bounded) exact recovery: for x[n] = sum_j c_j z_j^n with |z_j| = 1 the fitted polynomial vanishes at every z_j and the
+                         returned error is 0 -- order 1 in full generality (arcovar, modcovar and both Marple recursions), order 2 with the first
+                         component normalised to amplitude 1, frequency 0 (general case GIVEN scale invariance C03 and modulation covariance C04)
 """
 from fractions import Fraction
 from pyvc import values as V
@@ -28,12 +30,14 @@ META = {
                     "energy.* and marple.* are bounded in size (all values at those sizes); lstsq-call.* is unbounded",
                     "the Marple recursions are checked as whole runs on real data only, at tiny sizes (their 200-line order/time updates "
                     "admit no practical stage-wise invariant here): a weak, bounded cross-check of 'same coefficients, same minimum'",
-                    "exact recovery of p noiseless exponentials = zero residual + uniqueness: mathematics over the specification, not claimed"],
+                    "exact recovery (recovery.*): unit-modulus poles through the half-angle tangent (every frequency except pi), free complex amplitudes; "
+                    "decided for p = 1 in general and for p = 2 with the first component normalised (amplitude 1, frequency 0), which loses no generality "
+                    "only GIVEN scale invariance (C03) and modulation covariance (C04, itself bounded); p >= 3 gives no result within 150 s: not claimed"],
     "trusted_base": ["sympy.polys"],
     "explanation": "The least-squares problem handed to the library is proved (all sizes) to be the statement's; that the returned error is "
                    "the minimum is a polynomial certificate over the normal equations (bounded sizes); the fast recursions are cross-checked "
                    "by exact algebra at tiny sizes.",
-    "bounded_note": "quick: energy N <= 6, p <= 2; marple real N <= 5, p <= 2.  thorough: energy N <= 9, p <= 4; marple real N <= 6, p <= 2, complex N = 4, p = 1",
+    "bounded_note": "recovery: p <= 2, N <= 5.  quick: energy N <= 6, p <= 2; marple real N <= 5, p <= 2.  thorough: energy N <= 9, p <= 4; marple real N <= 6, p <= 2, complex N = 4, p = 1",
 }
 
 
@@ -178,8 +182,64 @@ def marple_task(method, N, p, cx=False):
     return Task("marple.%s.%s.N%d.p%d" % (method, "complex" if cx else "real", N, p), run, kind="bounded", prerun=True, timeout=300, functions=[fq])
 
 
+def recovery_task(method, p, N, fast=False, normalised=False):
+    """noiseless sum of p complex exponentials x[n] = sum_j c_j z_j^n, |z_j| = 1 (z_j = exp(i w_j) through the half-angle tangent,
+    c_j free complex amplitudes): the fitted polynomial z^p + a_1 z^{p-1} + .. + a_p vanishes at every z_j and the returned error is 0
+    -- exact recovery of the p frequencies.  The real arcovar / modcovar with the exact least-squares solve (A-LSQ made executable),
+    or the real Marple recursion (fast=True)."""
+    if fast:
+        fq = "spectrum.covar.arcovar_marple" if method == "covariance" else "spectrum.modcovar.modcovar_marple"
+    else:
+        fq = "spectrum.covar.arcovar" if method == "covariance" else "spectrum.modcovar.modcovar"
+
+    def run(tc):
+        # normalised: the first component has amplitude 1 and frequency 0.  No loss of generality GIVEN two other properties:
+        # the fit is invariant under a complex scale factor (C03) and a modulation rotates all poles together (C04)
+        first = 1 if normalised else 0
+        names = sum((["w%d" % j, "t%d" % j, "c%d_r" % j, "c%d_i" % j] for j in range(first, p)), [])
+        dom, I = e3_interp(tc, names)
+        E = E3(tc, dom, "recovery", {"method": method, "p": p, "N": N, "fast": fast}, tc.seed)
+        z, c = [], []
+        if normalised:
+            z.append(Cx(F(1), F(0)))
+            c.append(Cx(F(1), F(0)))
+        for j in range(first, p):
+            dom.angle("w%d" % j, "t%d" % j)
+            z.append(dom.elem("exp", Cx(F(0), dom.sym("w%d" % j))))
+            c.append(dom.csym("c%d" % j))
+
+        def zpow(u, n):
+            r = Cx(F(1), F(0))
+            for _ in range(n):
+                r = r * u
+            return r
+        x = [sum((c[j] * zpow(z[j], n) for j in range(p)), Cx(F(0), F(0))) for n in range(N)]
+        v = E.run(I, lambda I_: I_.call_qual(fq, Arr.from_items(list(x), dtype="complex"), p))
+        if v is None:
+            return
+        a = v[0].to_list()[:p]
+        E.ok("returns-p-coefficients", len(a) == p, "length %d" % len(a))
+        if len(a) != p:
+            return
+        for j in range(p):
+            val = zpow(z[j], p)
+            for k in range(p):
+                val = val + V.Cx.of(a[k]) * zpow(z[j], p - 1 - k)
+            E.eq("polynomial-vanishes-at-exp(i*w%d)" % j, val, Cx(F(0), F(0)))
+        E.eq("returned-error=0", V.Cx.of(v[1]), Cx(F(0), F(0)))
+    return Task("recovery.%s%s%s.p%d.N%d" % (method, ".marple" if fast else "", ".normalised" if normalised else "", p, N), run, kind="bounded", prerun=True, timeout=200, functions=[fq])
+
+
 def tasks(tier):
     ts = []
+    for method in ("covariance", "modified"):
+        for fast in (False, True):
+            ts.append(recovery_task(method, 1, 3, fast))
+        ts.append(recovery_task(method, 2, 4, False, normalised=True))
+        if tier == "thorough":
+            ts.append(recovery_task(method, 1, 4, False))
+            ts.append(recovery_task(method, 2, 5, False, normalised=True))
+            ts.append(recovery_task(method, 2, 5, True, normalised=True))
     for method in ("covariance", "modified"):
         for dt in ("real", "complex"):
             ts.append(call_task(method, dt))
